@@ -40,8 +40,12 @@ RULES = {
     "R6": "history-free pass objects (shared with C05-R5): per-run state kept on a pass object is re-initialised "
     "unconditionally before its first use in call()/requires(), so a reused pass object (Sequential, PassManager) does to a "
     "model exactly what a fresh one does",
+    "R10": "no answer survives an edit (shared rule S14): no function of the pass modules is memoised (functools.cache / lru_cache / "
+    "cached_property) over a model, graph, node or value argument - passes run repeatedly on models that were edited in between, and "
+    "a cache keyed by object identity hands the analysis of the old contents to the next run, which then reports (or skips) changes "
+    "for a model it did not look at",
 }
-FLOORS = {"R1": 18, "R2": 40, "R3": 10, "R4": 4, "R5": 1, "R6": 8, "R7": 5, "R8": 2, "R9": 6}
+FLOORS = {"R1": 18, "R2": 40, "R3": 10, "R4": 4, "R5": 1, "R6": 8, "R7": 5, "R8": 2, "R9": 6, "R10": 1}
 EXPLANATION = (
     "For every pass class found under onnx_ir.passes: CFG queries over `call` and every helper it reaches that "
     "writes model state (effect summaries with root tags), relating each write to the flag variables that reach "
@@ -1006,6 +1010,9 @@ def run(ctx):
     ef.compute()
     passes = pass_classes(ctx)
     ctx.tables["pass_classes"] = [c.key for c in passes]
+    from ..shared import rule_s14
+
+    rule_s14(ctx, "R10", lambda name: name.startswith("onnx_ir.passes"), "the pass acts on (and reports about) contents the model no longer has")
     rule_r1(ctx, passes)
     rule_r2(ctx, passes, ef)
     rule_r3(ctx, passes, ef)
